@@ -1,6 +1,7 @@
 import QuantemModel.Core.Proto
 import QuantemModel.Model.Serialize
 import QuantemModel.Core.SerializeJson
+import QuantemModel.Model.SeqKeys
 open Lean QuantemModel QuantemModel.Proto QuantemModel.Serialize
 
 namespace DrvC01
@@ -24,6 +25,19 @@ def step (st : Unit) (j : Json) : Unit × Json :=
         match load skl (save sks v) with
         | .ok r => pure (okJson (valToJson r))
         | .error e => pure (errJson (errName e))
+    | "dec" =>
+        -- `str(n)` of the key layer (Model/SeqKeys.lean)
+        let ns ← (← arrField j "ns").toList.mapM (·.getNat?)
+        pure (okJson (Json.arr (ns.map fun n => Json.str (String.ofList (SeqKeys.dec n))).toArray))
+    | "seqdecode" =>
+        -- the keys of a sequence group in the store's enumeration order: reconstructed length and
+        -- the keys whose children are appended, in order
+        let keys ← (← arrField j "keys").toList.mapM (·.getStr?)
+        let kids : List (SeqKeys.Key × String) := keys.map fun k => (k.toList, k)
+        pure (okJson (Json.mkObj [("len", Json.num (JsonNumber.fromNat (SeqKeys.seqLen (kids.map (·.1))))),
+                                  ("found", match SeqKeys.seqDecode kids with
+                                    | some l => Json.arr (l.map Json.str).toArray
+                                    | none => Json.str "KeyError")]))
     | _ => throw s!"unknown op {op}" : Except String Json) with
   | .ok r => (st, r)
   | .error e => (st, errJson s!"driver:{e}")
